@@ -67,6 +67,15 @@ class Monitor(explore.BaseMonitor):
             return v
         writes = [e[2:] for e in aobs if e[0] == 'write']
         wtids = [e[1] for e in obs if e[0] == 'write']
+        # the OPEN action of every session is the same message (RFC 4271 4.2: the configured values, never a hold time of 1 or 2)
+        for e in obs:
+            if e[0] == 'write' and isinstance(e[2], (bytes, bytearray)) and len(e[2]) >= 29 and e[2][18] == 1:
+                first = getattr(self, 'first_open', None)
+                if first is None:
+                    self.first_open = bytes(e[2][:e[2][16] * 256 + e[2][17]])
+                elif bytes(e[2][:len(first)]) != first:
+                    v.append(('C01|%s|%s|the OPEN sent differs from the OPEN of this agent\'s first session' % (ref.label(), aev[0]),
+                              {'first': first.hex(), 'now': bytes(e[2]).hex()}))
         closes = [e[1] for e in obs if e[0] == 'lose']
         connects = [e for e in obs if e[0] == 'connect']
         excs = [e for e in aobs if e[0] == 'exc']
